@@ -76,6 +76,14 @@ Theorem C05_nopanic :
   forall (pal256 gray4 : rgba -> N) (cp : caps) (c : cmd), is_ok (encode pal256 gray4 cp c) = true.
 Proof. exact encode_total. Qed.
 
+(* 5b. KNOWN FINDING (class C05-char-introducer, excluded from cmd_ok): `Char(c)` for the seven
+       characters that open a control sequence or string (ESC, and C1 DCS SOS CSI OSC PM APC) is
+       NOT self-contained: the parser is left inside an escape sequence ... *)
+Theorem C05_char_introducer_refuted :
+  forall (pal256 gray4 : rgba -> N) (cp : caps) (c : N), char_introducer c = true ->
+  exists bs, encode pal256 gray4 cp (Char c) = Ok bs /\ vt_complete bs = false.
+Proof. exact char_introducer_refuted. Qed.
+
 (* 6. the DEC mode numbers in the source (regenerated every run) are xterm's *)
 Theorem C05_decmodes : forall m, decmode_code m = decmode_xterm m.
 Proof. exact decmode_code_xterm. Qed.
@@ -104,6 +112,16 @@ Example C05_meaning_nonvacuous :
   vt_ops [27; 91; 48; 59; 51; 56; 59; 50; 59; 49; 59; 50; 59; 51; 59; 52; 58; 51; 59; 49; 109]
     = [OSgr (mkRT (Some IBold) (Some false) (Some LCurly) (Some false) (Some false) (Some false) (Some false)
                   (Some (CRgb 1 2 3)) (Some CDefault) (Some CDefault) false)].
+Proof. vm_compute. repeat split; reflexivity. Qed.
+
+(*     ... and swallows what follows: Char(ESC) Char('c') is a full reset, Char(U+009B) Char('2')
+      Char('J') erases the screen; every other character (C0/C1 controls, DEL) is in the domain *)
+Example C05_char_introducer_witnesses :
+  vt_ops (utf8_list [27; 99]) = [ORis] /\
+  vt_ops (utf8_list [155; 50; 74]) = [OEd 2] /\
+  cmd_ok (Char 27) = false /\ cmd_ok (Char 155) = false /\
+  cmd_ok (Char 127) = true /\ cmd_ok (Char 133) = true /\ cmd_ok (Char 7) = true /\ cmd_ok (Char 156) = true /\
+  cmd_ok (Termcap [[]]) = true /\ cmd_ok (Termcap []) = true.
 Proof. vm_compute. repeat split; reflexivity. Qed.
 
 (* ---------- the code before the `fix:` commits did NOT have the property ---------- *)
